@@ -13,8 +13,9 @@ EXPLANATION = ('Map-equivalence of arbitrary histories and attribution of evicti
                '(candidate shard x + key) precedes every publish; below its Ok outcome the insert targets shard x, below its Err '
                'outcome the other candidate, both being the two components of the pair computed for this key ("never two copies"); '
                '(R11.3) in the sharded get/touch the miss/false outcome of the first candidate leads to the same operation on the '
-               'second candidate, and the candidates are the two components of the key\'s pair.')
-FLOORS = {'R11.1': 4, 'R11.2': 4, 'R11.3': 4}
+               'second candidate, and the candidates are the two components of the key\'s pair; (R11.4) set publishes onto '
+               '(directory + key) only by a replacing rename, never by an exclusive link.')
+FLOORS = {'R11.1': 4, 'R11.2': 4, 'R11.3': 4, 'R11.4': 3}
 
 
 def r11_1(ctx):
@@ -155,6 +156,25 @@ def r11_3(ctx):
     return out
 
 
+def r11_4(ctx):
+    """"latest set": on every path of the cache-directory set (and of the public set operations) the destination name
+    is only ever the target of a replacing publish; an exclusive link there would keep an older value and still report
+    success."""
+    out = []
+    m = ctx.cachedir_methods()
+    entries = [('cachedir.set', m['set'])] + [(p, ctx.key_of(p)) for p in ('plain::Cache::set', 'sharded::Cache::set')]
+    for name, k in entries:
+        q = ctx.explore(k)
+        pubs = q.prim_edges({'publish_replace', 'publish_excl'})
+        got = sorted({cls_of(q.E[e][2]) for e in pubs if path_class(ctx, q, arg_role(q.E[e][2], 'dst')) == 'Base/Key'})
+        ok = got == ['publish_replace']
+        bad = [e for e in pubs if cls_of(q.E[e][2]) != 'publish_replace']
+        out.append(inst('R11.4', name, ok, 'set publishes onto (directory + key) only by replacing rename' if ok else
+                        'set can publish through %s: an existing entry would survive a successful set' % got,
+                        path=witness_path(q, bad[0]) if bad else []))
+    return out
+
+
 def run(ctx):
     from runner import collect
-    return collect(ctx, r11_1, r11_2, r11_3)
+    return collect(ctx, r11_1, r11_2, r11_3, r11_4)
